@@ -68,6 +68,19 @@ def play(script, budget=4000):
     term.al_state, term.al_err = script["start"], bool(script["err"])
     term.al_policy = ScriptPolicy(script)
     term.log_accesses = True
+    hibits = int(script.get("hi", 0))
+    if hibits:
+        # bits of AL status above the error indicator (bit 5: device identification loaded,
+        # reserved bits): shown all the time, no part of state or error indication
+        def al_status(off, n, term=term):
+            data = bytearray(term._al_read(off, n))
+            for i in range(n):
+                if off + i == 0x130:
+                    data[i] |= hibits & 0xe0
+                elif off + i == 0x131:
+                    data[i] |= hibits >> 8
+            return bytes(data)
+        term.add_handler(0x130, 0x132, al_status, None)
     bus = simbus.SimBus([term])
     out = {}
 
@@ -94,8 +107,9 @@ def play(script, budget=4000):
             hi = data[0x121 - off] if 0x121 - off < n else 0
             ev.append(dict(op="w", val=lo | hi << 8))
         elif kind == "r" and off <= 0x130 < off + n:
-            v = data[0x130 - off]
-            ev.append(dict(op="r", st=v & 0xf, err=bool(v & 0x10)))
+            lo = data[0x130 - off]
+            hi = data[0x131 - off] if 0x131 - off < n else 0
+            ev.append(dict(op="r", raw=lo | hi << 8))      # decoded by the specification
     ev.append(out["o"])
     return ev
 
@@ -103,6 +117,9 @@ def play(script, budget=4000):
 def run(ctx):
     logging.disable(logging.CRITICAL)
     k = 2 if ctx.quick else 3
+    # AL status bits above the error indicator the terminals show: none, bit 5 (device
+    # identification loaded); thorough adds a reserved bit and a high-byte bit
+    hibits = (0, 0x20) if ctx.quick else (0, 0x20, 0x40, 0x8020)
     wd = ctx.workdir()
     # 1. the design: exhaustive model check of the composition, with its consequences
     T.write_cfg(wd, "mc.cfg", """SPECIFICATION Spec
@@ -123,6 +140,7 @@ CHECK_DEADLOCK FALSE
     # 2. terminal scripts from TLC
     T.write_cfg(wd, "scripts.cfg", f"""SPECIFICATION SSpec
 CONSTANTS K = {k}
+          HiBits = {{{", ".join(map(str, hibits))}}}
 INVARIANT Emit
 CHECK_DEADLOCK FALSE
 """)
@@ -133,13 +151,13 @@ CHECK_DEADLOCK FALSE
     scripts = []
     for r in T.printed_records(res, "SCRIPT"):
         s = r[0]
-        key = (s["start"], s["err"], s["target"], tuple(s["d"]), s["ep"])
+        key = (s["start"], s["err"], s["target"], tuple(s["d"]), s["ep"], s["hi"])
         if key not in seen:
             seen.add(key)
             scripts.append(s)
     if not scripts:
         raise T.MachineryError("no scripts enumerated")
-    scripts.sort(key=lambda s: (s["start"], s["err"], s["target"], s["d"], s["ep"]))
+    scripts.sort(key=lambda s: (s["start"], s["err"], s["target"], s["d"], s["ep"], s["hi"]))
     # 3. play each on the real code, 4. TLC validates the recorded runs
     traces = [dict(target=s["target"], ev=play(s)) for s in scripts]
     T.write_cfg(wd, "trace.cfg", f"""SPECIFICATION TSpec
@@ -154,9 +172,11 @@ CHECK_DEADLOCK FALSE
     results = T.validate_traces(ctx, wd, "AlDriverTrace", "trace.cfg", traces, chunk=4000)
     ctx.exhaustive = True
     ctx.rule = (f"all terminal scripts within the bound k={k} (start state, error flag, each requested "
-                f"transition taking 0..{k} polls, an error at any poll, each target), enumerated by TLC; "
+                f"transition taking 0..{k} polls, an error at any poll, each target, AL status bits above the error indicator in "
+                f"{[hex(h) for h in hibits]}), enumerated by TLC; "
                 f"non-trivial = the master had to write AL control at least once")
     ctx.extra["k"] = k
+    ctx.extra["hibits"] = list(hibits)
     ctx.extra["scripts"] = len(scripts)
     outcomes = {}
     for s, t, (matched, length, inv) in zip(scripts, traces, results):
@@ -164,7 +184,7 @@ CHECK_DEADLOCK FALSE
         ev = t["ev"]
         writes = [e["val"] for e in ev if e["op"] == "w"]
         outcomes[ev[-1]["op"]] = outcomes.get(ev[-1]["op"], 0) + 1
-        ctx.evaluated((s["start"], s["err"], s["target"], tuple(s["d"]), s["ep"]),
+        ctx.evaluated((s["start"], s["err"], s["target"], tuple(s["d"]), s["ep"], s["hi"]),
                       nontrivial=bool(writes))
         if len(ctx.samples) < 3 and len(writes) >= 3 and (s["ep"] or len(ctx.samples) < 2):
             ctx.sample(dict(script=s, ev=ev))
@@ -175,7 +195,7 @@ CHECK_DEADLOCK FALSE
             ctx.case_failed(case, (f"trace rejected by AlDriver at event {matched}: {bad}" if bad else
                                    f"invariant violated: {inv}")
                             + f" (start {NAMES[s['start']]}{'+err' if s['err'] else ''}, target "
-                              f"{NAMES[s['target']]}, delays {s['d']}, error at poll {s['ep']})")
+                              f"{NAMES[s['target']]}, delays {s['d']}, error at poll {s['ep']}, status bits {hex(s['hi'])})")
     ctx.extra["outcomes"] = outcomes
 
 
